@@ -708,6 +708,10 @@ class Executor:
         # named constant
         key = Program._const_key(text)
         cands = self.prog.consts.get(key, [])
+        if re.search(r"::\{constant#\d+\}$", text):
+            cands = [c for c in cands if c.name == text or text.endswith("::" + c.name)]
+            if not cands:
+                return Opaque("anonconst", text)
         if len(cands) > 1:
             cands2 = self._disambiguate_const(text, cands, fr)
             if cands2:
@@ -1922,6 +1926,16 @@ class Executor:
             raise Fork(alts)
         if isinstance(r, _WithDefs):
             self._deliver_alt(st, fr.uid, dest, target, r)
+            return None
+        if isinstance(r, _Enter):
+            # the model asks to run a local function (closure) in place of the call
+            nf = Frame(st.next_uid, r.fn, r.subst)
+            st.next_uid += 1
+            for (pname, _), a in zip(r.fn.params, r.args):
+                nf.locals[pname] = a
+            nf.dest = dest
+            nf.target = target
+            st.frames.append(nf)
             return None
         self.finish_call(st, fr, dest, target, r)
         return None
